@@ -165,6 +165,18 @@ func decodeLogEntry(r io.Reader) (LogEntry, error) {
 	return entry, nil
 }
 
+// countingReader counts the bytes read through it.
+type countingReader struct {
+	reader io.Reader
+	count  int64
+}
+
+func (c *countingReader) Read(p []byte) (int, error) {
+	n, err := c.reader.Read(p)
+	c.count += int64(n)
+	return n, err
+}
+
 // persistentLog implements the Log interface. Not concurrent safe.
 type persistentLog struct {
 	// The in-memory log entries of the log.
@@ -207,17 +219,36 @@ func (l *persistentLog) Open() error {
 }
 
 func (l *persistentLog) Replay() error {
-	reader := bufio.NewReader(l.file)
+	reader := &countingReader{reader: bufio.NewReader(l.file)}
+
+	// The offset immediately following the last complete entry.
+	var validOffset int64
 
 	for {
 		entry, err := decodeLogEntry(reader)
-		if errors.Is(err, io.EOF) {
+		if errors.Is(err, io.EOF) || errors.Is(err, io.ErrUnexpectedEOF) {
 			break
 		}
 		if err != nil {
 			return fmt.Errorf("could not decode log entry: %w", err)
 		}
 		l.entries = append(l.entries, &entry)
+		validOffset = reader.count
+	}
+
+	// A crash during an append may leave a partially written entry at the
+	// end of the file. Remove it so that it is neither treated as an error
+	// nor left in front of the entries appended from now on.
+	if reader.count > validOffset {
+		if err := l.file.Truncate(validOffset); err != nil {
+			return fmt.Errorf("could not truncate partially written log entry: %w", err)
+		}
+		if err := l.file.Sync(); err != nil {
+			return fmt.Errorf("could not sync log file: %w", err)
+		}
+		if _, err := l.file.Seek(validOffset, io.SeekStart); err != nil {
+			return fmt.Errorf("could not seek log file: %w", err)
+		}
 	}
 
 	// The log must always contain at least one entry.
